@@ -17,6 +17,8 @@ type c14 struct{}
 
 func init() { engine.Register(c14{}) }
 
+func (c14) PostGenerate(r *engine.Rand, sc *engine.Scenario) { chooseEnv(r, sc) }
+
 func (c14) ID() string { return "C14" }
 
 func (c14) Budget(tier string) int {
@@ -109,7 +111,7 @@ func (c14) Execute(sc *engine.Scenario) *engine.Result {
 	if m == nil {
 		return res
 	}
-	m.Park()
+	park(sc, m, res)
 	stat := uint8(sc.P("stat", 0))
 	lyc := uint8(sc.P("lyc", 0))
 	m.Write(0xff41, stat)
